@@ -867,3 +867,98 @@ pub fn explore(p: &Program, max_states: u64) -> Explored {
     }
     ex
 }
+
+/// Linearizability of one recorded history against the model: is there a
+/// sequence of model transitions that (a) respects every thread's program
+/// order, (b) respects real time — if call A returned before call B was
+/// invoked, every transition of A precedes every transition of B (the same for
+/// the end-of-thread drops) — and (c) gives every call exactly the result the
+/// implementation returned?
+pub fn linearizable(p: &Program, h: &crate::hist::History) -> Result<(), String> {
+    use std::collections::HashMap;
+    let n = p.threads.len();
+    // observed results and intervals
+    let mut obs: HashMap<(usize, usize), (&Res, Option<bool>, u64, u64)> = HashMap::new();
+    for c in &h.calls {
+        obs.insert((c.thread, c.idx), (&c.res, c.opt_some, c.inv, c.ret));
+    }
+    let mut tend = vec![(u64::MAX, u64::MAX); n];
+    for (t, b, e) in &h.thread_end {
+        tend[*t] = (*b, *e);
+    }
+    // must[u] for a transition starting at stamp s: thread u has to have
+    // completed every call that returned before s (and be Finished if its end
+    // phase was over before s)
+    let required = |s: u64, me: usize| -> Vec<(usize, usize, bool)> {
+        // (thread, minimal pc, must be finished)
+        let mut v = Vec::new();
+        for u in 0..n {
+            if u == me {
+                continue;
+            }
+            let mut minpc = 0usize;
+            for (j, _) in p.threads[u].ops.iter().enumerate() {
+                if let Some(o) = obs.get(&(u, j)) {
+                    if o.3 < s {
+                        minpc = j + 1;
+                    }
+                }
+            }
+            v.push((u, minpc, tend[u].1 < s));
+        }
+        v
+    };
+    let mode = Mode {
+        concurrent: n > 1,
+    };
+    let init = World::new(p);
+    let mut dead: HashSet<World> = HashSet::new();
+    let mut stack = vec![init];
+    let mut explored = 0u64;
+    while let Some(w) = stack.pop() {
+        if w.th.iter().all(|t| t.phase == Phase::Finished) {
+            return Ok(());
+        }
+        if !dead.insert(w.clone()) {
+            continue;
+        }
+        explored += 1;
+        if explored > 200_000 {
+            return Ok(()); // give up silently: never an alarm from a cap
+        }
+        for t in 0..n {
+            let th = &w.th[t];
+            let start = match th.phase {
+                Phase::Finished => continue,
+                Phase::Ending => tend[t].0,
+                _ if th.pc >= p.threads[t].ops.len() => tend[t].0,
+                _ => obs.get(&(t, th.pc)).map(|o| o.2).unwrap_or(0),
+            };
+            let ok = required(start, t).iter().all(|(u, minpc, fin)| {
+                let x = &w.th[*u];
+                x.pc >= *minpc && (!*fin || x.phase == Phase::Finished)
+            });
+            if !ok {
+                continue;
+            }
+            for nx in w.steps(p, t, mode) {
+                // every result produced so far must be the observed one
+                let good = nx.results.iter().all(|(rt, ri, r, o)| match obs.get(&(*rt, *ri)) {
+                    Some(x) => x.0 == r && x.1 == *o,
+                    None => false,
+                });
+                if good && !dead.contains(&nx) {
+                    stack.push(nx);
+                }
+            }
+        }
+    }
+    Err(format!(
+        "the history is not linearizable: no sequence of atomic steps of the reference channel gives every call the result it returned while respecting real time (a call that returned before another began takes effect first); calls (thread, op, invoked, returned, result): {:?}",
+        {
+            let mut v: Vec<_> = h.calls.iter().map(|c| (c.thread, format!("{:?}", c.op), c.inv, c.ret, format!("{:?}", c.res))).collect();
+            v.sort_by_key(|x| x.2);
+            v
+        }
+    ))
+}
